@@ -193,7 +193,7 @@ SqrRule(a) == I("sqrrule", a, 0, E1)
 Pr(i, j, kind) == [i |-> i, j |-> j, kind |-> kind]
 One == 4
 
-Laws == {"comm", "ident", "assoc", "powpow", "powmul", "powadd", "simp", "eqsem", "rules", "state"}
+Laws == {"comm", "ident", "assoc", "powpow", "powmul", "powadd", "simp", "eqsem", "rules", "state", "coef"}
 
 Prog(law, p, q) ==
   CASE law = "comm" ->    \* u*v == v*u ; u/v == u*v**-1 == v**-1*u
@@ -214,7 +214,12 @@ Prog(law, p, q) ==
          <<Mul(2, One), Div(1, One)>>
     [] law = "state" ->   \* run in EVERY phase of a registry history, on terms re-built in the current registry state
          <<Mul(1, 2), Div(5, 3), Simp(6), Coef(7), Coef(6), MulRule(1, 2), DivRule(1, 3), Pow(1, p), Div(12, 3), Simp(13),
-           SqrtRule(5), RecRule(1), SqrRule(2), Div(1, 3), Simp(18), Coef(19), Mul(1, 2)>>
+           SqrtRule(5), RecRule(1), SqrRule(2), Div(1, 3), Simp(18), Coef(19), Mul(1, 2), Simp(7), Mul(7, 3), Simp(23), Simp(19)>>
+    [] law = "coef" ->    \* operations ON forms that already carry a numeric coefficient: t = (u*v/w).simplify() ;
+                          \* simplify again, as_coeff_unit, t*v, t/u, t**p (p integral), the rules with t as an operand
+         <<Mul(1, 2), Div(5, 3), Simp(6), Simp(7), Coef(8), Mul(7, 2), Simp(10), Div(7, 1), Simp(12), Coef(13),
+           Pow(7, p), Simp(15), Coef(16), MulRule(7, 3), DivRule(7, 2), Simp(1), Simp(20), Coef(1), Div(1, 3), Simp(23), Simp(24),
+           Mul(2, 7), Div(2, 7), MulRule(3, 7)>>
     [] law = "rules" ->   \* the (factor, unit) a ufunc gets for u*v and u/v denotes u*v and u/v ; asked twice (memo hit)
          <<MulRule(1, 2), DivRule(1, 2), Mul(1, 2), Div(1, 2), MulRule(1, 2), DivRule(1, 2), MulRule(2, 1)>>
 
@@ -229,7 +234,11 @@ Pairs(law) ==
     [] law = "simp" -> <<Pr(8, 12, "law"), Pr(9, 12, "probe"), Pr(15, 14, "probe"), Pr(6, 11, "twin"), Pr(14, 12, "probe")>>
     [] law = "eqsem" -> <<Pr(1, 2, "probe"), Pr(1, 5, "probe"), Pr(6, 2, "probe"), Pr(1, 1, "law"), Pr(2, 2, "law")>>
     [] law = "state" -> <<Pr(7, 6, "law"), Pr(14, 13, "law"), Pr(19, 18, "law"), Pr(5, 21, "twin"), Pr(8, 6, "probe"),
-                          Pr(20, 18, "probe"), Pr(10, 5, "probe"), Pr(11, 18, "probe"), Pr(1, 3, "probe"), Pr(17, 2, "probe")>>
+                          Pr(20, 18, "probe"), Pr(10, 5, "probe"), Pr(11, 18, "probe"), Pr(1, 3, "probe"), Pr(17, 2, "probe"),
+                          Pr(22, 6, "law"), Pr(24, 23, "law"), Pr(25, 18, "law")>>
+    [] law = "coef" -> <<Pr(7, 6, "law"), Pr(8, 6, "law"), Pr(8, 7, "law"), Pr(11, 10, "law"), Pr(13, 12, "law"), Pr(16, 15, "law"),
+                         Pr(20, 1, "law"), Pr(21, 1, "law"), Pr(24, 23, "law"), Pr(25, 23, "law"), Pr(9, 6, "probe"), Pr(17, 15, "probe"),
+                         Pr(22, 1, "probe"), Pr(14, 12, "probe"), Pr(26, 10, "law"), Pr(28, 18, "probe")>>
     [] law = "rules" -> <<Pr(5, 7, "probe"), Pr(6, 8, "probe"), Pr(5, 9, "law"), Pr(6, 10, "law"), Pr(5, 11, "probe")>>
 
 (* --------------------------- Part 3: C05 predicates ---------------------- *)
